@@ -13,8 +13,9 @@ RULE = ("cases are generated literal SPELLINGS (every escape, \\u forms incl. su
         "depth >= 2 or contains an escape, a block string or an exponent (literal cases), has >= 2 arguments (forwarding cases), "
         "or is a default-value / accepted-malformed case.")
 
-KEYS = ["raw-control-char", "braced-unicode-escape", "block-escaped-triple-quote", "block-quote-next-to-whitespace",
-        "block-blank-only", "default-null-list-wrapped", "malformed-literal-accepted"]
+# findings still open; the repaired ones (raw-control-char, default-null-list-wrapped, block-blank-only,
+# block-escaped-triple-quote) have no cause any more: a regression is reported as a violation
+KEYS = ["braced-unicode-escape", "block-quote-next-to-whitespace", "malformed-literal-accepted"]
 
 _known = set()
 
@@ -30,7 +31,7 @@ def classify(case, detail):
     if "unexplained" in causes:
         return None
     for c in causes:
-        if c not in _known:
+        if c not in _known or c not in KEYS:
             return c
     return causes[0]
 
@@ -74,7 +75,7 @@ def run(chk):
         "(S-expression decoding, cause attribution by the extracted Diag predicates)",
         "modelled by hand and tied by byte-exact correspondence: ast.Document.ValueToJSON/writeJSONValue, "
         "BlockStringValueContentRawBytes/ContentBytes with the lexer's Literal.Start/End trimming, helpers.go line functions, "
-        "quotes.WrapBytes, encoding/json appendString (escapeHTML off, go1.25), value level of variables_extraction.go and "
+        "the escaping of bytes below 0x20 in quoted strings, quotes.WrapBytes, encoding/json appendString (escapeHTML off, go1.25), value level of variables_extraction.go and "
         "variables_default_value_extraction.go",
         "modelled at value level only (tree compare on the recorded upstream body): resolve input-template rendering of context "
         "variables, SetInputUndefinedVariables, graphql_datasource compactAndUnNullVariables/cleanupVariables; astjson's "
